@@ -26,11 +26,11 @@ def run(ctx):
         ctx.configs[cfg] = info
         ctx.cfg = cfg
         inv = norm_rules.range_invariant(ctx, prog, "R1")
-        norm_rules.normalize_absint(ctx, prog, "R1", bool(inv))
-        norm_rules.selection_order(ctx, prog, "R2")
-        norm_rules.type_ranges(ctx, prog, "R3")
-        norm_rules.limit_parse_types(ctx, prog, "R3")
-        xml_rules.type_attributes(ctx, prog, "R3")
-        simple_rules.formulas(ctx, prog, "R3")
-        norm_rules.normalize_value_table(ctx, prog, "R4", "R4")
+        ctx.call(norm_rules.normalize_absint, prog, "R1", bool(inv))
+        ctx.call(norm_rules.selection_order, prog, "R2")
+        ctx.call(norm_rules.type_ranges, prog, "R3")
+        ctx.call(norm_rules.limit_parse_types, prog, "R3")
+        ctx.call(xml_rules.type_attributes, prog, "R3")
+        ctx.call(simple_rules.formulas, prog, "R3")
+        ctx.call(norm_rules.normalize_value_table, prog, "R4", "R4")
     ctx.cfg = None
